@@ -236,6 +236,13 @@ func genC09(r *vc.Run) {
 	c09Aliasing(r)
 	r.Rule = "every Start and every UpdateFromBytes in its own goroutine with seeded jitter, plus pollers calling WaitingFor on every party, for the six protocols, built with the Go race detector; per party the set of delivered messages is replayed on the engine model (by the confluence theorem any order gives the same final state): final round and result count must agree; oracles: each party's result exactly once, result predicates of C01-C04, no 'DATA RACE' report, no timeout; non-trivial = all runs"
 	runs := protoRuns(r)
+	// ECDSA signing on a curve the application registered itself (NIST P-256), three signers: the per-peer verification
+	// goroutines of the rounds go through whatever the library keeps per curve
+	runs = append(runs, protoRun{proto: "ecdsa_signing", cfg: "p256 key (3,1), signers=3", heavy: true,
+		build: func() *runCtx {
+			ks, pids, t := ecKeysByRef("p256:kg:3:1")
+			return buildECDSASign(ks, pids, t, signOpts{msg: big.NewInt(31337), seed: fmt.Sprintf("c09-p256-%d", r.Seed), ec: curveByName("p256")})
+		}})
 	reps := r.Pick(4, 30)
 	for _, pr := range runs {
 		n := reps
